@@ -37,7 +37,11 @@ META = {
 
 RULE = ("a case = (scenario, set|multiset, key kind, layout, routing, buffer, policy, sim seed); 1-rank cases are compared operation-sequence-exact "
         "with the model, multi-rank cases per key by order search / order-independent comparison, consume_all by handed-out multisets; "
-        "non-trivial = at least one key with >= 2 operations from different ranks in one block (1-rank: >= 20 operations)")
+        "non-trivial = at least one key with >= 2 operations from different ranks in one block (1-rank: >= 20 operations); every scenario "
+        "keeps TWO containers of the same type alive on the communicator with interleaved operations (a third with equal shares), each judged "
+        "against its own contents; a quarter of the multi-rank cases run the same scenario, through the same template instantiations, on a "
+        "sub-communicator (MPI_Comm_split of the world by local id: last-vs-rest or parity) AND on the world communicator of one process, in "
+        "either order, and both runs (every sub-communicator group and the world) are judged with the same oracles / model comparison")
 
 
 class SetFlavour(E.MapFlavour):
